@@ -29,7 +29,7 @@ impl RangeParameters<P> {
         &&& is_pow2u(self.bp_gens.gens_capacity)
         &&& self.bp_gens.gens_capacity <= 64
         &&& is_pow2u(self.bp_gens.party_capacity)
-        &&& self.bp_gens.party_capacity <= u32::MAX
+        &&& self.bp_gens.party_capacity <= 0x1_0000_0000
     }
 }
 impl RangeStatement<P> {
